@@ -2634,6 +2634,10 @@ class InterVersionedFileRepository(InterRepository):
                 # Because we may have walked past the original stop point, make
                 # sure everything is stopped
                 stop_revs = searcher.find_seen_ancestors(have_revs)
+                # An ancestor of a revision the target has may itself be absent
+                # from the target (a ghost there that the source can fill):
+                # never stop at a revision this walk has found to be missing.
+                stop_revs = set(stop_revs).difference(missing_revs)
                 searcher.stop_searching_any(stop_revs)
             if searcher_exhausted:
                 break
